@@ -188,6 +188,46 @@ pub fn main(args: &Args) {
                 }
             }
         },
+        "scaled" => {
+            // pathological sizes: long runs / deep nestings of one construct (C04: no panic, overflow or hang; a crash of
+            // this process is attributed to the case noted next to the trace).  Trees are not dumped.
+            std::env::set_var("VH_NOTE", "1");
+            let n = args.num("scale", 10000) as usize;
+            let units = ["<div>", "<b>", "<b id=1><i>", "<table><tr><td>", "<template>", "<svg><g>", "<a>", "<li>", "</p>", "<select><option>", "<p><b>",
+                         "<math><mi>", "<table>", "<table><caption>", "<nobr>", "<dd><dt>", "<ruby><rt>", "<frameset>", "<button>", "<form>", "<h1>",
+                         "<svg><foreignObject>", "<math><annotation-xml encoding=text/html>", "<optgroup>", "<td>", "</br>", "<applet>", "x<i>", "<font size=1>",
+                         "<body a=b>", "<html c=d>", "<head>", "<title>", "<textarea>", "<!--x-->", "<?x>", "<tr>", "<col>", "<input>", "<hr>", "<a><div>"];
+            let mut k = 0u64;
+            for u in units {
+                for (pre, post) in [("", ""), ("<table>", ""), ("", "</b></i></a></p></div></table>x"), ("<template>", "</template>"), ("<svg>", "<p>")] {
+                    k += 1;
+                    if k % shards != shard {
+                        continue;
+                    }
+                    let mut s = String::from(pre);
+                    for _ in 0..(n / u.len()).max(1) {
+                        s.push_str(u);
+                    }
+                    s.push_str(post);
+                    let mut c = base_case(&s);
+                    c["dump"] = json!(false);
+                    c["tokens"] = json!(true);
+                    id += 1;
+                    crate::tok::note_current(&c);
+                    let po = run_parse(&c);
+                    let mut cfg = c.clone();
+                    cfg.as_object_mut().unwrap().remove("chunks");
+                    cfg["scaled"] = json!({"unit": u, "pre": pre, "post": post, "chars": s.chars().count()});
+                    out.line(&json!({"ev":"reset","case":id,"cfg":cfg,"chunks":[]}));
+                    for mut e in po.feeds {
+                        e["case"] = json!(id);
+                        out.line(&e);
+                    }
+                    out.line(&json!({"ev":"tree","case":id,"dom":{"k":"none"},"quirks":po.quirks,"parents_ok":true,
+                                     "panic": match &po.panic { Some(m) => json!([cps(m)]), None => json!([]) }, "neof": po.neof}));
+                }
+            }
+        },
         "tables" => {
             // directed cases over the standard's tables (gen/c02_tables.json)
             let path = args.get("tables").expect("--tables FILE");
